@@ -9,6 +9,10 @@ import PycommProofs.GenericProofs
 import PycommProofs.LogixBitsProofs
 import PycommProofs.LogixPlanProofs
 import PycommProofs.CodecRoundTrip
+import PycommProofs.LE2RBasic
+import PycommProofs.LE2RMulti
+import PycommProofs.LE2RRead
+import PycommProofs.LE2RFrag
 namespace Pycomm.Lgx.E2E
 open Pycomm Pycomm.Tgt Pycomm.Path Pycomm.Lgx Pycomm.Lgx.Cl
 
@@ -24,7 +28,8 @@ theorem read_e2e (st : LState) (cap : Nat) (path : Bytes) (segs : List PSeg) (lo
     (hfit : bs.length + 4 + (typeBytes st.proj loc.ty).length ≤ cap) :
     exchange st cap (readMsg path n) =
       ({ st with ctr := st.ctr + 1 }, { status := 0, data := typeBytes st.proj loc.ty ++ bs }) := by
-  sorry
+  rw [readMsg, exchange_tag st cap 0x4C path (le 2 n) segs loc hp hr (by decide)]
+  exact readTag_plain st loc n cap bs hn hb hfit
 
 /-- C01: the client decodes such a reply to the values whose encoding the controller holds (arrays of any
     elementary non-bit-string type; `{1}` requests yield the element itself) -/
@@ -33,13 +38,28 @@ theorem read_reply_decodes (c n : Nat) (t : Ty) (vs : List PyVal) (bs : Bytes)
     (hv : ∀ x ∈ vs, Canon t x) (he : encode (.arr (.fixed n) t) (.list vs) = .ok bs) :
     parseReadReply (le 2 c ++ bs) t true n =
       .ok (if n = 1 then vs.headD .none else .list vs) := by
-  sorry
+  have hc : Canon (.arr (.fixed n) t) (.list vs) := by
+    rw [Canon]; exact ⟨vs, rfl, hn, hb, hv⟩
+  obtain ⟨bs', h1, h2⟩ := decode_encode _ _ hc
+  rw [he] at h1; cases h1
+  have := h2 []
+  rw [List.append_nil] at this
+  simp only [parseReadReply, splitTyped_atomic c t ht, if_true, this, hb, and_true]
+  by_cases h1 : n = 1
+  · subst h1
+    match vs, hn with
+    | [x], _ => simp
+  · simp [h1]
 
 /-- C01: scalar tags -/
 theorem read_reply_decodes_scalar (c : Nat) (t : Ty) (v : PyVal) (bs : Bytes)
     (ht : atomicTy c = some t) (hv : Canon t v) (he : encode t v = .ok bs) :
     parseReadReply (le 2 c ++ bs) t false 1 = .ok v := by
-  sorry
+  obtain ⟨bs', h1, h2⟩ := decode_encode t v hv
+  rw [he] at h1; cases h1
+  have := h2 []
+  rw [List.append_nil] at this
+  simp only [parseReadReply, splitTyped_atomic c t ht, Bool.false_eq_true, if_false, this]
 
 /-- C01/C04: the fragmented read loop reassembles exactly the bytes the controller holds, whatever sizes the
     controller chooses for the fragments (every cyclic schedule) and for every connection size that leaves
@@ -51,7 +71,9 @@ theorem read_frag_e2e (st : LState) (cap : Nat) (path : Bytes) (segs : List PSeg
     (hb : readBytes st.proj loc n = some bs) (hne : bs ≠ []) (hlen : bs.length < 2 ^ 32)
     (hroom : 4 + (typeBytes st.proj loc.ty).length + 1 ≤ cap) (hfuel : bs.length ≤ fuel) :
     ∃ st', readFragLoop path n cap fuel st 0 [] = (st', .ok (typeBytes st.proj loc.ty, bs)) ∧ st'.proj = st.proj := by
-  sorry
+  have := frag_inv st.proj cap path segs loc n bs hp hr hty hn hb hlen hroom fuel st 0 rfl
+    (List.length_pos_iff.mpr hne) (by omega)
+  simpa using this
 
 /-- C03: a multi-service request is executed as its embedded requests one after the other, each on the state
     the previous one left, and the reply packs their replies in order; the outer status is 0x1E exactly when
@@ -62,12 +84,18 @@ theorem multi_e2e (st : LState) (cap : Nat) (msgs : List Bytes) (hne : msgs ≠ 
       ((execEmbedded cap st msgs).1,
        { status := if (execEmbedded cap st msgs).2.any (fun r => r.getD 2 0 != 0) then 0x1E else 0,
          data := K.packMulti (execEmbedded cap st msgs).2 }) := by
-  sorry
+  have hpm := K.target_unpacks_packed msgs hne hpos (by rw [← List.sum_eq_foldl]; exact hsz)
+  unfold exchange multiMsg
+  rw [parseMR_multi]
+  simp only [logixService, Option.getD_some, and_self, if_true, multiService, hpm]
+  rw [multi_reply_data]
 
 /-- C03: position-faithful: one reply per embedded request -/
 theorem multi_reply_count (st : LState) (cap : Nat) (msgs : List Bytes) :
     (execEmbedded cap st msgs).2.length = msgs.length := by
-  sorry
+  induction msgs generalizing st with
+  | nil => simp [execEmbedded]
+  | cons m rest ih => rw [execEmbedded_cons]; simp [ih]
 
 /-- C03 (isolation): the reply to an embedded request that is not a nested multi-service request is the reply
     the same request gets on its own, from the state its predecessors left -/
@@ -77,6 +105,15 @@ theorem multi_isolation (st : LState) (cap : Nat) (pre : List Bytes) (m : Bytes)
     (execEmbedded cap st (pre ++ m :: post)).2[pre.length]? =
       some (encMRReply req.service (exchange st1 cap m).2) ∧
     (execEmbedded cap st (pre ++ m :: post)).1 = (execEmbedded cap (exchange st1 cap m).1 post).1 := by
-  sorry
+  induction pre generalizing st with
+  | nil =>
+    simp only [List.nil_append, List.length_nil]
+    rw [execEmbedded_cons, embStep_exchange cap st m req hm hnm]
+    simp [execEmbedded]
+  | cons p pre ih =>
+    simp only [List.cons_append, List.length_cons]
+    rw [execEmbedded_cons, execEmbedded_cons]
+    simp only [List.getElem?_cons_succ]
+    exact ih _
 
 end Pycomm.Lgx.E2E
